@@ -1,4 +1,5 @@
 import PgFdr.Proofs.C18
+import PgFdr.Proofs.PipelineC18
 
 /-!
 # C18 — every shipped method configuration is usable from the command line
@@ -246,6 +247,81 @@ example : runCli Generated.methods false everything [.builtin "no_such_method"] 
   decide +kernel
 
 example : has "Perc no_remap bestPEP" "Perc" = true ∧ has "Perc no_remap bestPEP" "no_remap" = true := by
+  decide +kernel
+
+/-! ## "… for which the ranking, q-value and row-consistency guarantees above hold"
+
+`toPipelineConfig` (`Model/C18Pipeline.lean`) maps a parsed method to the configuration
+`PgFdr.Pipeline.Config` with which the composed model `Pipeline.run` of `get_protein_group_results` is run
+(grouping, razor flag, competition mode; `picked_group` is `PickedGroupStrategy()` with its default
+`"leading"`).  `PipelineGuarantees pc` (`Proofs/PipelineC18.lean`) is, word for word, the conjunction of the
+end-to-end theorems `C01.pipeline_ranked_nonincreasing`, `C01.pipeline_qvals_spec`,
+`C01.pipeline_threshold_sound`, `C01.pipeline_report_alignment`, `C06.pipeline_rows_consistent`,
+`C06.pipeline_rows_disjoint` for the configuration `pc`, for every input and every recorded parameter. -/
+
+/-- the generated-table obligation: every shipped TOML file, also when run gene-level with the pseudo-gene
+    fallback, parses to a configuration the composed pipeline model covers (no shipped method uses the
+    MaxQuant-native groupings, which the model does not compose) — evaluated by the kernel on the current
+    TOML files -/
+theorem shipped_methods_have_pipeline_config :
+    ∀ useGenes : Bool, ∀ m ∈ Generated.methods, (pipelineConfigOf useGenes m).isSome = true := by
+  decide +kernel
+
+/-- "For every method configuration shipped with the tool … writes a protein-group table for which the
+    ranking, q-value and row-consistency guarantees above hold": every shipped method (run protein-level,
+    or gene-level with the pseudo-gene fallback) parses to a configuration `cfg` whose pipeline
+    configuration `pc` — same razor flag, its competition strategy, its grouping — satisfies all three
+    groups of end-to-end guarantees: whatever the input and whatever the shuffles, cuts and float scores,
+    if the inference function returns a table then its ranking is the competition's, non-increasing in
+    score; its q-values are the monotone decoy-based estimate; its rows carry the score and q-value of
+    their rank; and (the peptide list being a dict) every row is consistent with its group's evidence and
+    no protein occurs in two rows. -/
+theorem shipped_methods_guarantees :
+    ∀ useGenes : Bool, ∀ m ∈ Generated.methods, ∃ (cfg : Cfg) (pc : Pipeline.Config),
+      parseMethod useGenes m = .ok cfg ∧ toPipelineConfig cfg = some pc ∧
+      pc.razor = cfg.razor ∧ pc.mode = cfg.picked.toMode ∧ cfg.grouping.toPipeline = some pc.grouping ∧
+      PipelineGuarantees pc := by
+  intro useGenes m hm
+  have h := shipped_methods_have_pipeline_config useGenes m hm
+  unfold pipelineConfigOf at h
+  cases hp : parseMethod useGenes m with
+  | error e => rw [hp] at h; simp at h
+  | ok cfg =>
+    rw [hp] at h
+    simp only at h
+    obtain ⟨pc, hpc⟩ := Option.isSome_iff_exists.mp h
+    refine ⟨cfg, pc, rfl, hpc, ?_, ?_, ?_, pipelineGuarantees pc⟩
+    all_goals
+      unfold toPipelineConfig at hpc
+      cases hg : cfg.grouping.toPipeline with
+      | none => rw [hg] at hpc; simp at hpc
+      | some g =>
+        rw [hg] at hpc
+        simp only [Option.some.injEq] at hpc
+        subst hpc
+        rfl
+
+/-! Non-vacuity: the flagship method `picked_protein_group` maps to the configuration of the two-pass
+demonstration call `Pipeline.demo_run2`, `savitski` to that of the one-pass call `Pipeline.demo_run1`
+(`Proofs/Pipeline.lean`): calls with these configurations that succeed on a dict input. -/
+
+example : ∃ m ∈ Generated.methods, m.name = "picked_protein_group" ∧
+    (pipelineConfigOf false m).map (fun c => (c.grouping, c.razor, c.mode)) =
+      some (Pipeline.demoCfg2.grouping, Pipeline.demoCfg2.razor, Pipeline.demoCfg2.mode) := by
+  decide +kernel
+
+example : ∃ m ∈ Generated.methods, m.name = "savitski" ∧
+    (pipelineConfigOf false m).map (fun c => (c.grouping, c.razor, c.mode)) =
+      some (Pipeline.demoCfg1.grouping, Pipeline.demoCfg1.razor, Pipeline.demoCfg1.mode) := by
+  decide +kernel
+
+example : ∃ r, Pipeline.run Pipeline.demoCfg2 Pipeline.demoInp2 = .ok r ∧
+    Pipeline.distinctPeptides Pipeline.demoInp2.pil := by
+  obtain ⟨r, h, -⟩ := Pipeline.demo_run2
+  exact ⟨r, h, Pipeline.demo_distinct.2⟩
+
+/-- a configuration the composed model does not cover (not shipped): native MaxQuant grouping -/
+example : pipelineConfigOf false { badRescue with grouping := some "mq_native" } = none := by
   decide +kernel
 
 end PgFdr.C18
